@@ -517,7 +517,7 @@ func init() {
 			}
 		}
 		wgAll.Wait()
-		c.close([]string{"watch:order", "watch:symlink-rotation", "seq:htpasswd", "seq:usermap", "seq:good-version", "seq:malformed-version", "conc:htpasswd", "conc:usermap",
+		c.close([]string{"watch:order", "watch:symlink-rotation", "watch:atomic-replace", "watch:large-htpasswd", "seq:htpasswd", "seq:usermap", "seq:good-version", "seq:malformed-version", "conc:htpasswd", "conc:usermap",
 			"conc:reload", "conc:malformed-reload", "conc:validations", "conc:window-mattered", "conc:reloaders-2"})
 	})
 }
@@ -569,6 +569,64 @@ func rlWatched(c *suiteCtx, dir string) {
 			}
 		}
 		done <- true
+	}
+	// ---- repeated atomic replacement (write a temporary file, rename it over the watched one — what editors, config management
+	// and `htpasswd` do): EVERY replacement comes into force, not only the first
+	{
+		path := filepath.Join(dir, "replaced-emails.txt")
+		os.WriteFile(path, []byte("v0@example.com\n"), 0o600)
+		done := make(chan bool, 1)
+		validator := newValidatorImpl(nil, path, done, func() {})
+		for n := 1; n <= 4; n++ {
+			tmp := path + ".tmp"
+			os.WriteFile(tmp, []byte(fmt.Sprintf("v%d@example.com\nkept@example.com\n", n)), 0o600)
+			os.Rename(tmp, path)
+			deadline := time.Now().Add(25 * time.Second)
+			cur, prev := fmt.Sprintf("v%d@example.com", n), fmt.Sprintf("v%d@example.com", n-1)
+			for time.Now().Before(deadline) && !(validator(cur) && !validator(prev)) {
+				time.Sleep(20 * time.Millisecond)
+			}
+			c.casen(fmt.Sprintf("watch|replace|%d", n), "")
+			c.count("watch:atomic-replace")
+			if !validator(cur) || validator(prev) {
+				c.violation("C20", fmt.Sprintf("atomic replacement #%d of the authenticated-emails file never came into force (25 s): the address it adds is rejected / the one it removes still accepted", n),
+					map[string]interface{}{"replacement": n, "added_accepted": validator(cur), "removed_still_accepted": validator(prev)})
+				break
+			}
+			time.Sleep(150 * time.Millisecond)
+		}
+		done <- true
+	}
+	// ---- a large htpasswd version (well over a megabyte): complete, every entry in force
+	{
+		path := filepath.Join(dir, "large-htpasswd")
+		os.WriteFile(path, []byte("first:"+htpasswdSHA("pw-first")+"\n"), 0o600)
+		if v, err := basic.NewHTPasswdValidator(path); err == nil {
+			var sb strings.Builder
+			n := 26000
+			for i := 0; i < n; i++ {
+				fmt.Fprintf(&sb, "user-%06d-with-a-long-name:%s\n", i, htpasswdSHA(fmt.Sprintf("pw-%d", i)))
+			}
+			big := sb.String()
+			tmp := path + ".tmp"
+			os.WriteFile(tmp, []byte(big), 0o600)
+			os.Rename(tmp, path)
+			last := fmt.Sprintf("user-%06d-with-a-long-name", n-1)
+			deadline := time.Now().Add(30 * time.Second)
+			for time.Now().Before(deadline) && !v.Validate(last, fmt.Sprintf("pw-%d", n-1)) {
+				time.Sleep(50 * time.Millisecond)
+			}
+			c.casen("watch|large-htpasswd", fmt.Sprintf("%d bytes", len(big)))
+			c.count("watch:large-htpasswd")
+			mid := n / 2
+			if !v.Validate(last, fmt.Sprintf("pw-%d", n-1)) || !v.Validate(fmt.Sprintf("user-%06d-with-a-long-name", mid), fmt.Sprintf("pw-%d", mid)) || v.Validate("first", "pw-first") {
+				c.violation("C20", fmt.Sprintf("a well-formed htpasswd version of %d bytes (%d users) did not come into force completely: later validations do not reflect the new contents", len(big), n),
+					map[string]interface{}{"bytes": len(big), "last_user_accepted": v.Validate(last, fmt.Sprintf("pw-%d", n-1)), "middle_user_accepted": v.Validate(fmt.Sprintf("user-%06d-with-a-long-name", mid), fmt.Sprintf("pw-%d", mid)),
+						"user_of_the_old_version_still_accepted": v.Validate("first", "pw-first")})
+			}
+		} else {
+			c.violation("HARNESS", "htpasswd validator: "+err.Error(), nil)
+		}
 	}
 	// ---- symlinks
 	{
